@@ -533,13 +533,31 @@ Proof.
 Qed.
 
 Corollary runs_invisible_current acts s :
-  no_leaking_act current acts = true ->
   veq (exec_acts current s acts) (set_gp (user_gp acts (cur (argv s)) (gp s)) s).
-Proof. intros G. apply runs_invisible; try reflexivity. exact G. Qed.
+Proof.
+  apply runs_invisible; try reflexivity.
+  unfold no_leaking_act. rewrite forallb_forall. intros a _.
+  destruct a; [cbn [act_leaks]; rewrite leaks_fixed by reflexivity|]; reflexivity.
+Qed.
 
 
 
-(* ---- the tree as it is (after the five repairs) ---------------------------------------------------- *)
+(* ---- the tree as it is (after the six repairs) satisfies all of C19 ------------------------------- *)
+Theorem restores_current : C19_statement current.
+Proof. apply restores_if_fixed; reflexivity. Qed.
+
+Corollary restores_current_run s o p :
+  usable (gp s) = true -> setup_uses o = [] -> restored s (snd (main current o p s)) = true.
+Proof.
+  intros U Q. apply (restores_current s [(o, p)] U). cbn [setup_silent forallb fst]. rewrite Q. reflexivity.
+Qed.
+
+Lemma no_leaking_act_current acts : no_leaking_act current acts = true.
+Proof.
+  unfold no_leaking_act. rewrite forallb_forall. intros a _.
+  destruct a; [cbn [act_leaks]; rewrite leaks_fixed by reflexivity|]; reflexivity.
+Qed.
+
 
 (* for ALL sequences four clauses hold; the fifth (no profiler left enabled) holds when no run
    executes auto-profiling registration statements (-l -p with a selection matching an import) *)
@@ -630,29 +648,16 @@ Proof.
   destruct a, b, c, d, e, f, g; vm_compute; repeat split; reflexivity.
 Qed.
 
-Lemma current_refuted : ~ C19_statement current.
-Proof.
-  intros H. specialize (H st0 [(opts0, enabling)] eq_refl eq_refl). vm_compute in H. discriminate.
-Qed.
-
-Lemma leak_breaks_next_run :
-  fst (main current opts0 returns (snd (main current opts0 enabling st0))) = Raised
-  /\ fst (main current opts0 returns st0) = Returned.
-Proof. vm_compute. split; reflexivity. Qed.
-
-(* the cProfile flavour (-b without -l) and every by-count use are safe in the tree as it is *)
-Lemma current_leaks_iff o p :
-  leaks current o p = o_line o && match p_leaves p with LEnable => true | _ => false end.
-Proof.
-  unfold leaks, current, cprofile_dump_disables. cbn.
-  destruct (o_line o), (o_builtin o), (p_leaves p), (registers o p); reflexivity.
-Qed.
-
 (* ... and the next in-process run then fails: its own profiler cannot be enabled *)
 Lemma leak_breaks_next_run_unrepaired :
   fst (main unrepaired opts0 returns (snd (main unrepaired opts0 registering st0))) = Raised
   /\ fst (main unrepaired opts0 returns st0) = Returned.
 Proof. vm_compute. split; reflexivity. Qed.
+
+(* ... and a direct enable() left on made the next in-process run raise (before fcd15c8) *)
+Lemma direct_enable_broke_next_run :
+  fst (main unrepaired opts0 returns (snd (main unrepaired opts0 enabling st0))) = Raised.
+Proof. vm_compute. reflexivity. Qed.
 
 (* in particular the tree before the repairs violated C19 *)
 Lemma unrepaired_refuted : ~ C19_statement unrepaired.
